@@ -19,8 +19,8 @@ import (
 	"time"
 
 	"github.com/eclipse/paho.mqtt.golang/packets"
-	"github.com/emitter-io/emitter/internal/broker"
 	econfig "github.com/emitter-io/config"
+	"github.com/emitter-io/emitter/internal/broker"
 	"github.com/emitter-io/emitter/internal/config"
 	"github.com/emitter-io/emitter/internal/provider/logging"
 	"github.com/emitter-io/emitter/internal/security"
@@ -32,7 +32,7 @@ var WaitCeiling = 30 * time.Second
 
 type quietLogger struct{}
 
-func (quietLogger) Name() string                            { return "quiet" }
+func (quietLogger) Name() string                           { return "quiet" }
 func (quietLogger) Configure(map[string]interface{}) error { return nil }
 func (quietLogger) Printf(string, ...interface{})          {}
 
